@@ -18,7 +18,11 @@
 //
 // header: {"policy":"default"|"reusable"|"mtsafe"|"stack"|"placement"|"buffer"|"extra",
 //          "mode":"seq"|"mt", "grain":"call"|"atomic"|"alloc", "kill":"finish"|"destroy",
-//          "init":<abstract size>, "nslots":n}
+//          "init":<abstract size>, "nslots":n,
+//          "fam":0..3   shape family of the coroutines: 0 bodies with local arrays of 16/256/1024 bytes, 1 the same
+//                       + 8 bytes (the other residue of the frame size mod 16), 2/3 the library's callback_await_coro
+//                       created through callback_await_alloc<Policy, future<int>&> with callbacks of those sizes,
+//          "obs":"full"|"alloc"   alloc: reduced projection {"bad","dels","live","news","where":[..]} (used by C20)}
 // steps:  Create(t,c) Complete(t,f) New(t) Del(t) Store(t) Teardown
 // projection: {"bad":[...harness-side check failures, expected empty...],"busy","cap","dels","fr":[{..}],
 //              "heap":[size per slot],"inv","news","pend":{t:..},"ptr","torn"}
